@@ -1376,6 +1376,9 @@ fn c13_injector_clause(rng: &mut Rng, id: String, rep: &mut Report) {
     thread_local! {
         static CURRENT: std::cell::RefCell<Option<(*const nucleo::Injector<Payload>, Vec<u32>)>> = const { std::cell::RefCell::new(None) };
     }
+    thread_local! {
+        static NOTIFIED: std::cell::Cell<u32> = const { std::cell::Cell::new(0) };
+    }
     let problems: Arc<Mutex<Vec<String>>> = Arc::new(Mutex::new(Vec::new()));
     let checked = Arc::new(AtomicU64::new(0));
     let (p2, c2) = (problems.clone(), checked.clone());
@@ -1394,6 +1397,7 @@ fn c13_injector_clause(rng: &mut Rng, id: String, rep: &mut Report) {
                     }
                 }
                 c2.fetch_add(1, Ordering::Relaxed);
+                NOTIFIED.with(|n| n.set(n.get() + 1));
                 for id in ids {
                     if !present.contains(id) {
                         p2.lock().unwrap().push(format!("notify called from push/extend but item id {id} of that call is not visible"));
@@ -1406,24 +1410,44 @@ fn c13_injector_clause(rng: &mut Rng, id: String, rep: &mut Report) {
     let mut w = World::new(id.clone(), rng, threads, 1, Some(notify));
     let k = w.new_injector();
     let mut workers = Vec::new();
-    for t in 0..3u32 {
+    // the callers are plain threads, workers of a thread pool owned by the application and tasks on rayon's global pool
+    let silent = Arc::new(Mutex::new(Vec::<String>::new()));
+    for t in 0..5u32 {
         let inj = w.handles[k].inj.clone();
         let reg = w.reg.clone();
         let next_id = w.next_id.clone();
-        workers.push(std::thread::spawn(move || {
+        let silent = silent.clone();
+        let kind = ["thread", "thread", "thread", "application-pool", "global-pool"][t as usize];
+        let body = move || {
             for round in 0..40u32 {
                 let n = if (round + t) % 3 == 0 { 7 } else { 1 };
                 let first = next_id.fetch_add(n, Ordering::Relaxed);
                 let ids: Vec<u32> = (first..first + n).collect();
                 CURRENT.with(|c| *c.borrow_mut() = Some((&inj as *const _, ids.clone())));
+                let before = NOTIFIED.with(|n| n.get());
                 if n == 1 {
                     inj.push(Payload::new(first, 0, &reg), |p, cols| fill_cols(p.id, cols));
                 } else {
                     let items: Vec<Payload> = ids.iter().map(|&i| Payload::new(i, 0, &reg)).collect();
                     inj.extend(items.into_iter(), |p, cols| fill_cols(p.id, cols));
                 }
+                if NOTIFIED.with(|n| n.get()) == before {
+                    silent.lock().unwrap().push(format!("{} of {n} items (first id {first}) on a {kind} caller returned without having called notify", if n == 1 { "push" } else { "extend" }));
+                }
                 CURRENT.with(|c| *c.borrow_mut() = None);
             }
+        };
+        workers.push(std::thread::spawn(move || match kind {
+            "application-pool" => rayon::ThreadPoolBuilder::new().num_threads(2).build().unwrap().install(body),
+            "global-pool" => {
+                let (tx, rx) = std::sync::mpsc::channel();
+                rayon::spawn(move || {
+                    body();
+                    let _ = tx.send(());
+                });
+                let _ = rx.recv();
+            }
+            _ => body(),
         }));
     }
     for _ in 0..10 {
@@ -1433,6 +1457,10 @@ fn c13_injector_clause(rng: &mut Rng, id: String, rep: &mut Report) {
         let _ = h.join();
     }
     rep.add("c13.injector-notifies-checked", checked.load(Ordering::Relaxed));
+    rep.add("c13.injector-calls-from-pool-threads", 80);
+    for p in silent.lock().unwrap().iter().take(3) {
+        rep.violation("C13", "push-without-notify", p.split(" returned").next().unwrap_or("").split(" on a ").nth(1).unwrap_or("").to_string(), jobj! {"problem" => p.clone(), "case_id" => id.clone()});
+    }
     for p in problems.lock().unwrap().iter().take(3) {
         rep.violation("C13", "notify-before-items-visible", "injector".into(), jobj! {"problem" => p.clone(), "case_id" => id.clone()});
     }
@@ -1654,7 +1682,7 @@ pub fn run_c20(opts: &Opts, rep: &mut Report) {
                 }
                 25..=34 if !w.handles.is_empty() => {
                     let k = rng.below(w.handles.len());
-                    w.clone_injector(k);
+                    w.clone_or_clone_from(k, &mut rng);
                     label = "clone";
                 }
                 35..=54 if !w.handles.is_empty() => {
@@ -1687,7 +1715,7 @@ pub fn run_c20(opts: &Opts, rep: &mut Report) {
                             w.check_active_injectors("tick timing out after restart");
                             if rng.coin() && !w.handles.is_empty() {
                                 let k = rng.below(w.handles.len());
-                                w.clone_injector(k);
+                                w.clone_or_clone_from(k, &mut rng);
                                 w.check_active_injectors("clone while the run is held");
                             }
                             release(0);
@@ -1782,6 +1810,11 @@ pub fn run_race(opts: &Opts, rep: &mut Report, items: u32, injectors: usize, poo
         let mut rng = Rng::new(mix(&[opts.seed, opts.shard, idx, 99]));
         let reg = Registry::new((items as usize * injectors + 64).max(256));
         let cols = rng.range(1, 2);
+        // every fourth history: a pool with more threads than any fixed-size per-thread table is likely to have
+        let pool_threads = if idx % 4 == 3 && !cfg!(miri) { 65 + rng.below(70) } else { pool_threads };
+        if pool_threads > 64 {
+            rep.count("race.histories-with-more-than-64-pool-threads");
+        }
         let mut nucleo: Nucleo<Payload> = Nucleo::new(Config::DEFAULT, Arc::new(|| ()), Some(pool_threads), cols as u32);
         let go = Arc::new(AtomicBool::new(false));
         let mut threads = Vec::new();
